@@ -17,7 +17,7 @@ RULE = ("cases = (start, stop, dt in {1,1/2,1/4,1/5,1/8,1/10,1/20}, population, 
         "sequence of begin_round / handle_events / act / end_round / statistics calls must equal the sequence the statement "
         "prescribes, with time = round + step*dt. non-trivial = 1/dt > 1 or the population changes during the run; distinct by case")
 ASSUMPTIONS = [
-    "population changes are made in the model's end_round callback (the live set is stable while agents act)",
+    "population changes are made in the model's end_round callback, or by an agent that removes itself or an agent created before it while it acts (all agents that were live at the start of the step still act once)",
     "stop >= 1 (stop = 0 divides by zero in the progress computation and is outside the generated domain)",
     "for externally driven run_step only collect_data=True is generated (the 'final step' is a notion of whole runs)",
 ]
@@ -49,6 +49,12 @@ def _classes():
 
         def act(self, time, round_no, step_no):
             self.model.calllog.append(["act", self.id, time])
+            # an agent may remove itself or an agent created before it while the step is running
+            live = self.model.__dict__.get("step_live", [])
+            for actor_pos, back in self.model.__dict__.get("actdel", {}).get(self.model.gcount, []):
+                if live and live[actor_pos % len(live)] == self.id:
+                    idx = actor_pos % len(live)
+                    self.model.delete_agent(live[max(0, idx - back)])
 
     class M(Model):
         def instantiate_model(self):
@@ -63,6 +69,7 @@ def _classes():
 
         def begin_round(self, time, sim_round, step):
             self.calllog.append(["begin", time, sim_round, step])
+            self.__dict__["step_live"] = [a.id for a in self.agents]
 
         def end_round(self, time, sim_round, step):
             self.calllog.append(["end", time, sim_round, step])
@@ -90,6 +97,7 @@ def _expected(case, live0, next_id):
     times = []
     g = 0
     gaps = {int(k): v for k, v in case.get("gaps", {}).items()}
+    actdel = {int(k): v for k, v in case.get("actdel", {}).items()}
     if case["mode"] == "steps":
         steps = [(0, s) for s in range(case["nsteps"])]
     else:
@@ -101,6 +109,13 @@ def _expected(case, live0, next_id):
             log.append(["handle", i, time])
             log.append(["act", i, time])
         log.append(["end", time, r, s])
+        start_live = list(live)
+        for actor_pos, back in actdel.get(g, []):
+            if start_live:
+                aidx = actor_pos % len(start_live)
+                victim = start_live[max(0, aidx - back)]
+                if victim in live:
+                    live.remove(victim)
         for act in gaps.get(g, []):
             if act[0] == "create":
                 live.append(next_id)
@@ -146,6 +161,7 @@ def check_case(case):
             m.instantiate_model()
             m.configure({"runspecs": {"starttime": start, "stoptime": stop, "dt": dt}, "properties": {}, "agents": pop})
         m.__dict__["gaps"] = gaps
+        m.__dict__["actdel"] = {int(k): v for k, v in case.get("actdel", {}).items()}
         m.__dict__["gcount"] = 0
         live0 = [a.id for a in m.agents]
         next_id = m.next_agent_id
@@ -186,10 +202,12 @@ def check_case(case):
 def _body(ctx):
     def body(case):
         info, vs = check_case(case)
-        nt = case["dt"] != 1 or bool(case.get("gaps"))
+        nt = case["dt"] != 1 or bool(case.get("gaps")) or bool(case.get("actdel"))
         labels = ["mode:" + case["mode"], "dt:%s" % case["dt"], "collect:%s" % case["collect"]]
         if case.get("gaps"):
             labels.append("population-changes")
+        if case.get("actdel"):
+            labels.append("deletion-during-act")
         ctx.case(case, nontrivial=nt, labels=labels, key=case)
         ctx.report(vs)
     return body
@@ -221,6 +239,12 @@ def case_strategy():
                 act = draw(create if mode == "bptk" else st.one_of(create, st.tuples(st.just("del"), st.integers(0, 5)).map(list)))
                 gaps.setdefault(str(g), []).append(act)
         case["gaps"] = gaps
+        actdel = {}
+        if mode != "bptk":
+            for _ in range(draw(st.integers(0, 2))):
+                g = draw(st.integers(0, max(0, total - 1)))
+                actdel.setdefault(str(g), []).append([draw(st.integers(0, 5)), draw(st.integers(0, 2))])
+        case["actdel"] = actdel
         return case
     return build()
 
